@@ -290,6 +290,31 @@ def p_hasattr(I, n, pos, kw):
     return Sc(sym.Opq("config", (), fresh("hasattr")))
 
 
+@prim("itertools.chain.from_iterable", "itertools.chain")
+def p_chain(I, n, pos, kw):
+    """the items of the given lists one after the other (lists of known length only)"""
+    tgt = I.log[-1]["target"]
+    parts = pos[0].items if tgt.endswith("from_iterable") and pos and isinstance(pos[0], Seq) else (pos if not tgt.endswith("from_iterable") else None)
+    if parts is None or not all(isinstance(x, Seq) for x in parts):
+        return I.unknown("prim:" + tgt, n)
+    out = []
+    for x in parts:
+        out.extend(x.items)
+    return Seq(out, "list")
+
+
+@prim("itertools.accumulate")
+def p_accumulate(I, n, pos, kw):
+    """running sums of a list of known numbers / scalars (default addition only)"""
+    if len(pos) == 1 and not kw and isinstance(pos[0], Seq) and all(isinstance(x, Sc) and x.e is not None for x in pos[0].items):
+        out, acc = [], None
+        for x in pos[0].items:
+            acc = x.e if acc is None else sym.add(acc, x.e)
+            out.append(Sc(acc))
+        return Seq(out, "list")
+    return I.unknown("prim:itertools.accumulate", n)
+
+
 @prim("itertools.zip_longest")
 def p_zip_longest(I, n, pos, kw):
     fill = kw.get("fillvalue", NoneV())
@@ -380,6 +405,9 @@ def p_list(I, n, pos, kw):
         if sp is None:
             return Seq(elem, "list")
         return I._list_from_items(elem(), sp, iv)
+    if isinstance(v, Arr) and v.ndim == 1 and v.axes[0][0].concrete is not None and I.cfg.flags.get("order_model") is not None:
+        sp, iv = v.axes[0]
+        return Seq([Sc(sym.subst_ivar(v.elem, iv, k)) for k in range(sp.concrete)], "list")
     if isinstance(v, Arr):
         return Arr(v.axes, v.elem, "list", v.uid)
     if isinstance(v, (Bag, Concat)):
@@ -997,7 +1025,7 @@ def p_arg(I, n, pos, kw):
         ax = 0 if v.ndim == 1 else int(_num(axis))
         if ax < 0:
             ax += v.ndim
-        if 0 <= ax < v.ndim and v.axes[ax][0].concrete is None:
+        if 0 <= ax < v.ndim:
             sp, iv = v.axes[ax]
             I.event("argextreme", n, op=t, arg=v, axis=ax)
             e = sym.Red(t, iv, sp, v.elem)
@@ -1433,8 +1461,76 @@ def m_maximum_matching(I, n, recv, pos, kw):
     return I.unknown("maximum_matching", n)
 
 
-@prim("bisect.bisect_left")
+def _concrete_scalars(v):
+    """the entries of a python list / 1-d array of known length, as expressions"""
+    if isinstance(v, Seq) and all(isinstance(x, Sc) and x.e is not None for x in v.items):
+        return [x.e for x in v.items]
+    if isinstance(v, Arr) and v.ndim == 1 and v.axes[0][0].concrete is not None:
+        sp, iv = v.axes[0]
+        return [sym.subst_ivar(v.elem, iv, k) for k in range(sp.concrete)]
+    return None
+
+
+@prim("numpy.lexsort")
+def p_lexsort(I, n, pos, kw):
+    """np.lexsort(keys) on arrays of known length whose comparisons are decided (an ordering class of the end-points): the
+    stable permutation that sorts by the LAST key first, then the one before it, ..."""
+    keys = pos[0] if pos else None
+    if I.cfg.flags.get("order_model") is None or not isinstance(keys, Seq) or not keys.items:
+        return I.unknown("prim:numpy.lexsort", n)
+    cols = [_concrete_scalars(k) for k in keys.items]
+    if any(c is None for c in cols) or len({len(c) for c in cols}) != 1:
+        return I.unknown("prim:numpy.lexsort", n)
+    L = len(cols[0])
+
+    def less(a, b):   # row a before row b: compare the last key first
+        for c in reversed(cols):
+            lt = I.decide(sym.Cmp("<", c[a], c[b]))
+            if lt is True:
+                return True
+            eq = I.decide(sym.Cmp("==", c[a], c[b]))
+            if lt is None or eq is None:
+                return None
+            if not eq:
+                return False
+        return False
+    order = []
+    for i_ in range(L):
+        at = len(order)
+        for j_, o_ in enumerate(order):
+            l_ = less(i_, o_)
+            if l_ is None:
+                return I.unknown("lexsort-undecided-comparison", n)
+            if l_:
+                at = j_
+                break
+        order.insert(at, i_)
+    return Seq([Sc(sym.Num(float(k))) for k in order], "list")
+
+
+@prim("bisect.bisect_left", "bisect.bisect_right", "bisect.bisect")
 def p_bisect(I, n, pos, kw):
+    tgt = I.log[-1]["target"]
+    xs = _concrete_scalars(pos[0]) if pos else None
+    if xs is not None and len(pos) == 2 and isinstance(pos[1], Sc) and pos[1].e is not None \
+            and I.cfg.flags.get("order_model") is not None:
+        # insertion point in a sorted list of known entries under decided comparisons
+        right = not tgt.endswith("bisect_left")
+        k = 0
+        for x in xs:
+            c = I.decide(sym.Cmp("<=" if right else "<", x, pos[1].e))
+            if c is None:
+                return I.unknown("bisect-undecided-comparison", n)
+            if not c:
+                break
+            k += 1
+        return Sc(sym.Num(float(k)))
+    if tgt.endswith("bisect_left"):
+        return _p_bisect_left_range(I, n, pos, kw)
+    return I.unknown("prim:" + tgt, n)
+
+
+def _p_bisect_left_range(I, n, pos, kw):
     if len(pos) == 2 and isinstance(pos[0], ObjV) and pos[0].tag == "range" and isinstance(pos[1], Sc):
         lo, hi, k = pos[0].attrs["lo"].e, pos[0].attrs["hi"].e, pos[1].e
         if all(x[0] == "num" for x in (lo, hi, k)):
